@@ -202,6 +202,38 @@ func c11Scenarios() []lncScen {
 				x.exchange(c2, sc2, 100)
 			}
 		}},
+		{"dial-during-slow-close", lncrun.Options{PrePaired: true}, func(s *lncrun.Session, x *lncExpect) {
+			// a Dial is already waiting for the previous connection when
+			// that one is closed, and the closing of its receive stream
+			// takes a while: the waiting Dial may only go ahead when the
+			// old connection has let go of the session's streams
+			s.Serve()
+			c, sc := x.connect(1)
+			if c == nil {
+				return
+			}
+			x.exchange(c, sc, 100)
+			second := make(chan *lncrun.Conn, 1)
+			go func() { second <- s.DialPatience("c", 2, 50*time.Second) }()
+			time.Sleep(2 * time.Second)
+			s.Relay.SetSlowRecvClose(700 * time.Millisecond)
+			s.Relay.SetSlowSendClose(1500 * time.Millisecond)
+			c.Close("script")
+			s.Relay.SetSlowRecvClose(0)
+			s.Relay.SetSlowSendClose(0)
+			c2 := <-second
+			x.check("dial returns a working connection", c2 != nil && c2.Sec != nil)
+			var sc2 *lncrun.Conn
+			for c2 != nil && c2.Sec != nil {
+				sc2 = s.Accepted()
+				if sc2 == nil || (sc2.Sec != nil && sc2.PeerID(20*time.Second) == c2.ID) {
+					break
+				}
+			}
+			if c2 != nil && c2.Sec != nil && x.check("accept returns a working connection", sc2 != nil) {
+				x.exchange(c2, sc2, 100)
+			}
+		}},
 		{"reader-stops-mid-record", lncrun.Options{PrePaired: true}, func(s *lncrun.Session, x *lncExpect) {
 			// the client's reader stops (as after a protocol error) when it
 			// has been handed only part of a large record; the connection is
